@@ -1,6 +1,6 @@
 # SPDX-FileCopyrightText: 2022 Rot127 <unisono@quyllur.org>
 # SPDX-License-Identifier: LGPL-3.0-only
-from rzilcompiler.Transformer.Pures.Register import Register
+from rzilcompiler.Transformer.Pures.Register import Register, RegisterAccessType
 from rzilcompiler.Transformer.Hybrids.Hybrid import HybridType, Hybrid, HybridSeqOrder
 from rzilcompiler.Transformer.Pures.GlobalVar import GlobalVar
 from rzilcompiler.Transformer.Pures.LocalVar import LocalVar
@@ -15,6 +15,12 @@ class PostfixIncDec(Hybrid):
         self.op_type = hybrid_type
         self.gl = get_scope_letter(operand)
         self.seq_order = HybridSeqOrder.SET_VAL_THEN_EXEC
+        if (
+            isinstance(operand, Register)
+            and operand.access == RegisterAccessType.UNKNOWN
+        ):
+            # Alias and explicit registers don't know yet that they are read and written.
+            operand.access = RegisterAccessType.RW
 
         Hybrid.__init__(self, name, [operand], value_type)
 
